@@ -1,4 +1,222 @@
-import AGH.Spec.HashPrefix
+/-
+C19 — safe-browsing / parental lookups reveal only hash prefixes; the cache
+never changes the verdict.
+
+Oracles (arbitrary parameters of every theorem): SHA-256 (`H`), the public
+suffix list (`ps`, `icann`; assumption `psOK`), the map iteration order in
+`storeInCache` (`ord`; any valid order), the LRU eviction policy (the concrete
+golibs policy is in the model; the invariant proofs do not depend on what
+`Set` evicts or rejects, so they hold for every cache size).
+Environment assumptions are spelled out in `OpOK` (AGH/Lemmas/HashPrefixHistory).
+-/
+import AGH.Lemmas.HashPrefixHistory
 namespace AGH.C19
-theorem C19_placeholder : True := trivial
+open AGH AGH.Bytes
+
+/-- **Which names are hashed.**  With a sane public-suffix oracle the strings
+hashed for `host` are exactly: `host` and its parent domains, non-empty, with
+at most three dots (last four labels), except the ICANN public suffix and its
+parents. -/
+theorem C19_hash_set (ps : Bytes) (icann : Bool) (host : Bytes) (hps : psOK ps icann host = true) (s : Bytes) :
+    s ∈ hashedNames ps icann host ↔
+      (s ∈ subdomains host ∧ s ≠ [] ∧ dots s ≤ 3 ∧ ¬ (icann = true ∧ isDotSuffixOrEq s ps = true)) := by
+  rw [mem_hashedNames hps, mem_allowedNames]
+
+/-- `subdomains` really is "the name and everything that follows a dot". -/
+theorem C19_parents (s d : Bytes) :
+    s ∈ subdomains d ↔ d ≠ [] ∧ (s = d ∨ ∃ pre, d = pre ++ dot :: s) :=
+  mem_subdomains s d
+
+/-- The question is a function of the 2-byte prefixes only. -/
+theorem C19_privacy_noninterference (suffix : Bytes) (hs₁ hs₂ : List Hash)
+    (h : hs₁.map prefix2 = hs₂.map prefix2) : getQuestion suffix hs₁ = getQuestion suffix hs₂ := by
+  simp [getQuestion, h]
+
+/-- **Privacy.**  Whatever the cache holds, whatever the upstream and the map
+order do: if a check sends a question, the question is
+`hex(p₁).hex(p₂).….<suffix>` where the `pᵢ` are the 2-byte hash prefixes of
+some of the allowed names of `host` (in order) — nothing else of the name
+enters it. -/
+theorem C19_privacy (cf : Conf) (now : Nat) (o : CheckOp) (c : Cache) (q : Bytes)
+    (hps : psOK o.ps o.icann o.host = true)
+    (h : (check cf now o.hashes o.exchange o.ord c).1.question = some q) :
+    ∃ names : List Bytes, names.Sublist (hashedNames o.ps o.icann o.host) ∧
+      (∀ s ∈ names, s ∈ allowedNames o.ps o.icann o.host) ∧
+      q = questionOfPrefixes cf.suffix (names.map (fun s => prefix2 (o.H s))) := by
+  obtain ⟨toReq, hsub, hq⟩ := check_question cf now o.hashes o.exchange o.ord c q h
+  simp only [CheckOp.hashes, hostnameToHashes] at hsub
+  obtain ⟨names, hn, rfl⟩ := List.sublist_map_iff.mp hsub
+  refine ⟨names, hn, fun s hs => (mem_hashedNames hps s).mp (hn.subset hs), ?_⟩
+  rw [hq, getQuestion, List.map_map]
+  rfl
+
+/-- **Verdict of a fresh lookup** (empty cache, any cache size): every hash of
+the name is asked about, and the name is blocked exactly when the answer
+carries a full hash equal to the hash of one of the allowed names. -/
+theorem C19_verdict (cf : Conf) (now max : Nat) (o : CheckOp) (answer : List RR)
+    (hps : psOK o.ps o.icann o.host = true) (hne : o.hashes ≠ [])
+    (hex : o.exchange (getQuestion cf.suffix o.hashes) = some answer) :
+    ∃ b, (check cf now o.hashes o.exchange o.ord ⟨[], max⟩).1 =
+        ⟨.blocked b, some (getQuestion cf.suffix o.hashes)⟩ ∧
+      (b = true ↔ ∃ s ∈ allowedNames o.ps o.icann o.host, o.H s ∈ receivedHashes answer) := by
+  refine ⟨findMatch o.hashes (receivedHashes answer), ?_, ?_⟩
+  · rw [check_fresh cf now max o.hashes hne, hex]
+  · rw [findMatch_iff]
+    simp only [CheckOp.hashes, hostnameToHashes, List.mem_map]
+    constructor
+    · rintro ⟨y, ⟨s, hs, rfl⟩, hy⟩
+      exact ⟨s, (mem_hashedNames hps s).mp hs, hy⟩
+    · rintro ⟨s, hs, hy⟩
+      exact ⟨_, ⟨s, (mem_hashedNames hps s).mpr hs, rfl⟩, hy⟩
+
+/-- **After expiry a cached item has no influence**: if every item in the cache
+has expired, a check sends the same question and returns the same verdict as
+with an empty cache. -/
+theorem C19_expired_ignored (cf : Conf) (now : Nat) (hashes : List Hash)
+    (exch : Bytes → Option (List RR)) (ord : List Hash → List (Prefix × List Hash)) (c : Cache)
+    (hexp : ∀ it ∈ c.lru, expired now it = true) :
+    (check cf now hashes exch ord c).1 = (check cf now hashes exch ord ⟨[], c.max⟩).1 := by
+  rw [check_outcome, check_outcome]
+  congr 1
+  unfold findInCache
+  have h1 := findLoop_allExpired now hashes [] c hexp
+  have h2 := findLoop_allExpired now hashes [] ⟨[], c.max⟩ (by simp)
+  simp only [List.length_nil] at h1 h2
+  rw [h1, h2]
+
+/-- **Cache transparency**, for every history of checks, clock advances and
+database changes sharing one cache of ANY size (so whatever is evicted or
+rejected), started from any cache satisfying the invariant: every verdict
+equals the verdict of a fresh lookup against the current database, and an
+error is reported only when the upstream failed on a question actually sent.
+Assumptions (`Valid`): the service answers the questions asked completely and
+only for the prefixes asked, and the database does not change for a prefix
+while an unexpired item for that prefix is cached. -/
+theorem C19_cache_transparent (cf : Conf) (ops : List Op) (w : World)
+    (hinv : Inv w.db w.now w.cache) (hv : Valid cf w ops) :
+    ForallChecks cf (fun w o out =>
+      (∀ b, out.verdict = .blocked b → b = freshVerdict o.H w.db o.ps o.icann o.host) ∧
+      (out.verdict = .upstreamErr → o.err = true ∧ out.question.isSome = true)) w ops := by
+  apply forallChecks_of_inv _ ops w hinv hv
+  intro w o hinv hok
+  obtain ⟨hps, _, henv⟩ := hok
+  obtain ⟨_, h2, h3⟩ := check_sound w.db cf w.now o.hashes o.exchange o.ord w.cache hinv (by
+    intro toReq answer hask hex
+    simp only [CheckOp.exchange] at hex
+    split at hex
+    · cases hex
+    · cases hex; exact henv toReq hask)
+  refine ⟨?_, ?_⟩
+  · intro b hb
+    rw [← any_hashes_eq_fresh o w.db hps]
+    exact h2 b hb
+  · intro he
+    obtain ⟨q, hq, hn⟩ := h3 he
+    refine ⟨?_, by simp [doCheck, hq]⟩
+    simp only [CheckOp.exchange] at hn
+    split at hn
+    · assumption
+    · cases hn
+
+/-- The same from an empty cache of any configured size. -/
+theorem C19_cache_transparent_from_empty (cf : Conf) (size : Nat) (db : List Hash) (ops : List Op)
+    (hv : Valid cf ⟨Cache.new size, 0, db⟩ ops) :
+    ForallChecks cf (fun w o out =>
+      (∀ b, out.verdict = .blocked b → b = freshVerdict o.H w.db o.ps o.icann o.host) ∧
+      (out.verdict = .upstreamErr → o.err = true ∧ out.question.isSome = true)) ⟨Cache.new size, 0, db⟩ ops :=
+  C19_cache_transparent cf ops _ (inv_empty db 0 size) hv
+
+/-- **The model meets the spec**: along every valid history, after every
+check, the monitor predicate `specOK` holds of what the model did. -/
+theorem C19_model_meets_spec (cf : Conf) (ops : List Op) (w : World)
+    (hinv : Inv w.db w.now w.cache) (hv : Valid cf w ops) :
+    ForallChecks cf (fun w o out => specOK (o.input cf w) out = true) w ops := by
+  apply forallChecks_of_inv _ ops w hinv hv
+  intro w o hinv hok
+  have hok' := hok
+  obtain ⟨hps, hlen, henv⟩ := hok
+  have htr := C19_cache_transparent cf [.check o] w hinv ⟨hok', trivial⟩
+  obtain ⟨⟨hb, he⟩, _⟩ := htr
+  simp only [specOK, CheckOp.input, hps, Bool.not_true, Bool.false_or, Bool.and_eq_true]
+  constructor
+  · -- privacy
+    simp only [privacyOK]
+    cases hq : (doCheck cf w o).1.question with
+    | none => rfl
+    | some q =>
+      simp only
+      obtain ⟨names, _, hall, rfl⟩ := C19_privacy cf w.now o w.cache q hps hq
+      apply questionShape_of_prefixes
+      · apply questionOfPrefixes_length
+        intro p hp
+        obtain ⟨s, _, rfl⟩ := List.mem_map.mp hp
+        exact prefix2_length (hlen s)
+      · intro p hp
+        obtain ⟨s, hs, rfl⟩ := List.mem_map.mp hp
+        exact ⟨prefix2_length (hlen s), List.mem_map.mpr ⟨s, hall s hs, rfl⟩⟩
+  · -- verdict
+    simp only [verdictOK]
+    cases hvd : (doCheck cf w o).1.verdict with
+    | upstreamErr =>
+      obtain ⟨h1, h2⟩ := he hvd
+      simp [h1, h2]
+    | blocked b =>
+      simp only
+      rw [hb b hvd]
+      simp
+
+/-! ### Non-vacuity: a concrete valid history with a fresh positive, a cached
+positive, an expiry and a cached negative. -/
+
+section Example
+
+def exH (s : Bytes) : Hash := List.replicate 32 s.length
+def exHost : Bytes := [97, 46, 98, 99]          -- "a.bc"
+def exDb : List Hash := [exH exHost]
+def exOp : CheckOp :=
+  { host := exHost, ps := [98, 99], icann := false, H := exH, err := false,
+    answer := fun _ => [some [hexBytes (exH exHost)]], ord := canonGroups }
+def exCf : Conf := ⟨[120, 46], 10 * nsPerSec⟩   -- suffix "x.", ttl 10 s
+def exW : World := ⟨Cache.new 200, 0, exDb⟩
+
+/-- the first check asks about both names and blocks; the second is answered
+from the cache (no question) with the same verdict -/
+example : (doCheck exCf exW exOp).1 = ⟨.blocked true, some (getQuestion exCf.suffix exOp.hashes)⟩ ∧
+    (doCheck exCf (step exCf exW (.check exOp)) exOp).1 = ⟨.blocked true, none⟩ := by
+  decide
+
+example : freshVerdict exOp.H exDb exOp.ps exOp.icann exOp.host = true := by decide
+
+/-- the assumptions of the history theorems are satisfiable by this history
+(fresh lookup, one second later a lookup answered from the cache, twenty
+seconds later — the item has expired — a fresh lookup again) -/
+example : Valid exCf exW [.check exOp, .advance nsPerSec, .check exOp, .advance (20 * nsPerSec), .check exOp] := by
+  have hlen : ∀ s, (exOp.H s).length = 32 := fun s => by simp [exOp, exH]
+  have hfresh : ∀ (w : World) (toReq : List Hash),
+      (findInCache w.now exOp.hashes w.cache).1 = .ask exOp.hashes → w.db = exDb →
+      (findInCache w.now exOp.hashes w.cache).1 = .ask toReq →
+      Honest w.db toReq (receivedHashes (exOp.answer (getQuestion exCf.suffix toReq))) ∧
+      validGroups (receivedHashes (exOp.answer (getQuestion exCf.suffix toReq)))
+        (exOp.ord (receivedHashes (exOp.answer (getQuestion exCf.suffix toReq)))) = true := by
+    intro w toReq h1 hdb h2
+    rw [h1] at h2
+    cases h2
+    have hr : receivedHashes (exOp.answer (getQuestion exCf.suffix exOp.hashes)) = [exH exHost] := by decide
+    rw [hr, hdb]
+    refine ⟨?_, by decide⟩
+    intro x
+    simp only [exDb, List.mem_singleton]
+    constructor
+    · rintro rfl; exact ⟨rfl, by decide⟩
+    · rintro ⟨h, _⟩; exact h
+  refine ⟨⟨by decide, hlen, fun toReq => hfresh _ toReq (by decide) rfl⟩, trivial,
+    ⟨by decide, hlen, ?_⟩, trivial, ⟨by decide, hlen, fun toReq => hfresh _ toReq (by decide) rfl⟩, trivial⟩
+  intro toReq h
+  have : (findInCache (step exCf (step exCf exW (.check exOp)) (.advance nsPerSec)).now exOp.hashes
+      (step exCf (step exCf exW (.check exOp)) (.advance nsPerSec)).cache).1 = .cached true := by decide
+  rw [this] at h
+  cases h
+
+end Example
+
 end AGH.C19
